@@ -14,7 +14,8 @@
 From Coq Require Import ZArith List Bool.
 Import ListNotations.
 From Urwid Require Import PyBase Canvas CanvasGrid CanvasFacts CanvasAbs CanvasVert CanvasHoriz CanvasJoin CanvasSides
-     CanvasProg CanvasProgH CanvasSim CanvasDelta CanvasDelta2 CanvasDelta3.
+     CanvasProg CanvasProgH CanvasSim CanvasDelta CanvasDelta2 CanvasDelta3
+     CanvasHeap CanvasHeapFrame CanvasHeapScope CanvasHeapRefine CanvasHeapSim.
 Open Scope Z_scope.
 
 (* ------------------------------------------------------------------------------------------
@@ -205,6 +206,64 @@ Qed.
 Print Assumptions delta_defined.
 
 (* ------------------------------------------------------------------------------------------
+   "The operand canvases are left unchanged."  Model/CanvasHeap.v makes Python's object
+   structure explicit: a composite canvas holds a reference to its shards list, every shard
+   a reference to its cviews list; CompositeCanvas(c) SHARES the shards list of c;
+   CanvasCombine / trim(top) / pad_trim_left_right / pad_trim_top_bottom / overlay share the
+   shard tuples they keep; pad_trim_top_bottom appends IN PLACE to its shards list unless that
+   list is still the operand's ("if orig_shards is self.shards: self.shards = self.shards.copy()").
+   [hrun] is the machine that is extracted and compared with the implementation, including the
+   aliasing pattern of all list objects.
+   ------------------------------------------------------------------------------------------ *)
+
+(* no operation changes a list object that existed before it: the heap is only extended.  In
+   particular the one in-place write of the code hits a list created by the same call. *)
+Theorem no_operation_writes_to_an_existing_list_object :
+  forall leaves st i st', hstep leaves st i = Ok st' -> hext (hheap st) (hheap st').
+Proof. intros leaves st i st' H. exact (proj1 (hstep_frame leaves st i st' H)). Qed.
+Print Assumptions no_operation_writes_to_an_existing_list_object.
+
+(* for every program: whatever has been bound (every operand that later operations share,
+   wrap, stack, join, overlay, pad, trim or remap) still denotes the same canvas value - the
+   same shards, hence the same content(), cols(), rows(), coords - after any later operations,
+   whether or not those end in an error *)
+Theorem operands_unchanged :
+  forall leaves p1 p2 st1 st2 err,
+    hrun leaves (HS empty_heap [] [] []) p1 = (st1, None) ->
+    hrun leaves st1 p2 = (st2, err) ->
+    forall k v, nthz (henv st1) k = Some v ->
+      nthz (henv st2) k = Some v /\ to_value (hheap st2) v = to_value (hheap st1) v.
+Proof.
+  intros leaves p1 p2 st1 st2 err H1 H2.
+  destruct (hrun_operands_unchanged leaves p1 _ _ _ hwf_init H1) as [W1 _].
+  exact (proj2 (hrun_operands_unchanged leaves p2 _ _ _ W1 H2)).
+Qed.
+Print Assumptions operands_unchanged.
+
+(* the machine over references computes what the pure machine computes (same observations,
+   same error), so every theorem above speaks about the extracted machine *)
+Theorem heap_machine_refines_pure_machine :
+  forall leaves prog st' err,
+    hrun leaves (HS empty_heap [] [] []) prog = (st', err) ->
+    run leaves (MS [] [] []) prog = (abs_st st', err).
+Proof. intros leaves prog st' err H. exact (hrun_refines leaves prog _ _ _ hwf_init H). Qed.
+Print Assumptions heap_machine_refines_pure_machine.
+
+Theorem canvas_composition_is_grid_on_the_heap :
+  forall leaves prog gst,
+    grun leaves (GS [] []) prog = Some gst ->
+    exists st, hrun leaves (HS empty_heap [] [] []) prog = (st, None) /\
+               Forall2 vrel (map (to_value (hheap st)) (henv st)) (genv gst).
+Proof.
+  intros leaves prog gst G. destruct (canvas_composition_is_grid leaves prog gst G) as (mst & R & E & _).
+  destruct (hrun leaves (HS empty_heap [] [] []) prog) as [st err] eqn:H.
+  pose proof (hrun_refines leaves prog _ _ _ hwf_init H) as R'.
+  change (abs_st (HS empty_heap [] [] [])) with (MS [] [] []) in R'. rewrite R in R'. injection R' as -> <-.
+  exists st. split; [reflexivity|exact E].
+Qed.
+Print Assumptions canvas_composition_is_grid_on_the_heap.
+
+(* ------------------------------------------------------------------------------------------
    Non-vacuity: concrete leaves with double-width characters, a program using every
    operation; the grid semantics is defined on it, the invariant holds, the model agrees.
    ------------------------------------------------------------------------------------------ *)
@@ -256,3 +315,15 @@ Example ex_delta :
   | _, _, _ => False
   end.
 Proof. vm_compute. repeat split; reflexivity. Qed.
+
+(* aliasing made visible: the wrapper shares the shards list of the bound canvas (same id);
+   padding the wrapper at the bottom copies that list first (new id) and the bound canvas still
+   reads the same; padding at the top first and then at the bottom appends in place to the new list *)
+Definition ex_hprog : list instr :=
+  [ ILeaf 1; ILeaf 2; ICombine 2; IBind; IRef 0; IWrap; IBind; IRef 0; IWrap; IPadTB 0 2; IBind; IRef 0; IWrap; IPadTB 1 1; IBind ].
+Example ex_aliasing :
+  let '(st, err) := hrun ex_leaves (HS empty_heap [] [] []) ex_hprog in
+  (err, map (fun v => match v with HComp c => hid c | HLeaf _ _ => -1 end) (henv st),
+   map (fun v => match v with HComp c => map snd (get_outer (hheap st) (hid c)) | HLeaf _ _ => [] end) (henv st))
+  = (None, [2; 2; 3; 4], [[0; 1]; [0; 1]; [0; 1; 2]; [3; 0; 1; 4]]).
+Proof. vm_compute. reflexivity. Qed.
